@@ -40,7 +40,7 @@ type c12Result struct {
 var c12Classes = []string{"nil-payload", "zero-index", "zero-id", "empty-group", "zero-member", "zero-member-missing", "unset-group", "bad-prefix", "bad-label",
 	"label-ge-2^32", "empty-ni", "unknown-ni", "invalid-utf8-ni", "unknown-group-ni", "other-op-type", "undefined-enum", "undefined-enum-in-list", "no-entry",
 	"delete-bad-prefix", "delete-bad-label", "delete-zero-id", "delete-zero-index", "delete-no-entry", "duplicate-members", "boundary-ints",
-	"replace-missing", "empty-group-with-backup", "empty-group-with-backup-replace", "get-empty-name", "get-unknown-ni", "get-bad-aft", "flush-no-ni", "flush-unknown-ni", "flush-empty-name"}
+	"replace-missing", "invalid-utf8-leaf", "empty-group-with-backup", "empty-group-with-backup-replace", "get-empty-name", "get-unknown-ni", "get-bad-aft", "flush-no-ni", "flush-unknown-ni", "flush-empty-name"}
 
 var badListSeq int
 
@@ -119,6 +119,8 @@ func malformedOp(r *drv.Rng, class string, id uint64, el *drv.U128) (drv.OpSpec,
 	case "undefined-enum-in-list":
 		badListSeq++
 		o.T, o.Key, o.BadList = "nh", 2, 1+badListSeq%5 // every position in turn
+	case "invalid-utf8-leaf": // reachable by an in-process caller; the wire codec refuses such a message
+		o.T, o.Key, o.BadList = "nh", 2, 6
 	case "no-entry":
 		o.T = "none"
 	case "delete-bad-prefix":
